@@ -113,6 +113,7 @@ where
         &mut self,
         from_program: &read::IncompleteLineProgram<R>,
         files: &mut Vec<write::FileId>,
+        file_zero: &mut Option<write::FileId>,
     ) -> write::ConvertResult<write::LineProgram> {
         let from_header = from_program.header();
         let encoding = from_header.encoding();
@@ -149,7 +150,7 @@ where
             encoding,
             from_header.line_encoding(),
             comp_dir,
-            comp_name,
+            comp_name.clone(),
             comp_file_info,
         );
 
@@ -161,8 +162,17 @@ where
             // something there makes the indexing easier.
             0
         } else {
-            // We don't add the first file to `files`, but still allow
-            // it to be referenced from converted instructions.
+            // The first file (index 0, the primary source file) is not part
+            // of `files`, but rows may refer to it: give it an entry of its
+            // own that such rows can use.
+            let comp_file_empty = matches!(&comp_name, write::LineString::String(s) if s.is_empty());
+            if !comp_file_empty {
+                *file_zero = Some(program.add_file(
+                    comp_name,
+                    program.default_directory(),
+                    comp_file_info,
+                ));
+            }
             1
         };
 
@@ -196,9 +206,10 @@ where
         mut from_program: read::IncompleteLineProgram<R>,
     ) -> write::ConvertResult<write::LineProgram> {
         let mut files = Vec::new();
+        let mut file_zero = None;
         // Create mappings in case the source has duplicate files or directories.
         let mut program = self
-            .convert_line_program_header(&from_program, &mut files)
+            .convert_line_program_header(&from_program, &mut files, &mut file_zero)
             .expect("line program header cannot be converted");
 
         // We can't use the `from_program.rows()` because that wouldn't let
@@ -262,10 +273,19 @@ where
                                         if file > files.len() as u64 {
                                             return Err(write::ConvertError::InvalidFileIndex);
                                         }
-                                        if file == 0 && program.version() <= 4 {
-                                            return Err(write::ConvertError::InvalidFileIndex);
+                                        if file == 0 {
+                                            // Only DWARF 5 has a file with index 0.
+                                            match file_zero {
+                                                Some(id) if program.version() >= 5 => id,
+                                                _ => {
+                                                    return Err(
+                                                        write::ConvertError::InvalidFileIndex,
+                                                    )
+                                                }
+                                            }
+                                        } else {
+                                            files[(file - 1) as usize]
                                         }
-                                        files[(file - 1) as usize]
                                     };
                                     program.row().line = match from_row.line() {
                                         Some(line) => line.get(),
